@@ -81,7 +81,9 @@ func genC15(t *rapid.T) interface{} {
 		op.V = val.Draw(t, "v")
 		switch op.Op {
 		case "newset":
-			switch rapid.IntRange(0, 3).Draw(t, "setkind") {
+			switch rapid.IntRange(0, 4).Draw(t, "setkind") {
+			case 4: // a long set (size ratios of 4 and more against the small ones)
+				op.Vals = rapid.SliceOfN(rapid.IntRange(-2, 20), 8, 16).Draw(t, "bigvals")
 			case 0: // low values with duplicates: spare capacity
 				k := rapid.IntRange(1, 2).Draw(t, "distinct")
 				for j := 0; j < k; j++ {
@@ -186,7 +188,7 @@ func checkC15(ci interface{}, st *Stats) error {
 			if fmt.Sprint(keys) != fmt.Sprint(wk) {
 				return fmt.Errorf("after step %d (%s): map #%d has keys %v, the model says %v", step, what, i, keys, wk)
 			}
-			for k := -3; k <= 9; k++ {
+			for k := -3; k <= 21; k++ {
 				if m.Get(k) != mmaps[i][k] {
 					return fmt.Errorf("after step %d (%s): map #%d[%d] = %d, the model says %d", step, what, i, k, m.Get(k), mmaps[i][k])
 				}
